@@ -1,0 +1,21 @@
+//go:build verif
+
+// Contracts for the deductive verifier in /verif (govc): ShardBuilder.Add
+// stores what it was given (C09). Comment-only file, compiled only with
+// -tags verif.
+
+package index
+
+// ShardBuilder.Add: the repository index and the language code are stored in
+// 16 bits; neither is silently truncated on its way into the shard's tables
+// (flag narrow=uint16: every conversion to uint16 is an obligation "the value
+// fits"). Only these conversions are specified; the rest of the function is
+// may_panic with trivial loop invariants.
+//@ func index.(*ShardBuilder).Add
+//@   may_panic
+//@   flag narrow=uint16
+//@   requires b != nil
+//@   loop 1:
+//@     invariant true
+//@   loop 2:
+//@     invariant true
